@@ -72,7 +72,7 @@ def plan(tier, seed):
 
 
 def mandatory(tier):
-    return ["functional", "accessors/Grid", "accessors/Cube", "accessors/Image", "accessors/ImageBatch", "accessors/FlowFields", "transforms", "deepcopy", "pytest"]
+    return ["functional", "functional/flag_sweep", "accessors/constructors", "accessors/Grid", "accessors/Cube", "accessors/Image", "accessors/ImageBatch", "accessors/FlowFields", "transforms", "deepcopy", "pytest"]
 
 
 def run_item(ctx, item):
@@ -110,12 +110,21 @@ def functional(ctx, D, part):
             continue
         fn = getattr(mod, name)
         done = 0
-        for si, spec in enumerate(specs):
+        # option sweep: the first specification again with every boolean keyword option flipped, one at a time
+        # (in-place arithmetic often hides behind an option, e.g. binarize=True, normalize=False)
+        flags = bool_flags(fn)
+        variants = [(si, spec, None) for si, spec in enumerate(specs)] + [(0, specs[0], fl) for fl in flags]
+        for si, spec, flag in variants:
             try:
                 args, kwargs = spec(E)
             except Exception as e:  # noqa: BLE001  (spec does not apply to this D)
                 ctx.count("spec_not_applicable")
                 continue
+            if flag is not None:
+                if flag[0] in kwargs:
+                    continue
+                kwargs = dict(kwargs, **{flag[0]: flag[1]})
+                ctx.bucket("functional/flag_sweep")
             snap = snapshot((args, kwargs))
             if not snap:
                 continue
@@ -129,7 +138,7 @@ def functional(ctx, D, part):
             ctx.bucket("functional")
             ctx.count(f"monitored/{qual}")
             ctx.nontriv(qual, si, D)
-            ctx.true("arguments_not_mutated", not changes, key=f"mutation/{qual}", function=qual, spec=si, D=D, changes=changes, raised=type(raised).__name__ if raised else None, kwargs=sorted(kwargs))
+            ctx.true("arguments_not_mutated", not changes, key=f"mutation/{qual}", function=qual, spec=si, flag=list(flag) if flag else None, D=D, changes=changes, raised=type(raised).__name__ if raised else None, kwargs=sorted(kwargs))
             if changes:
                 E = R.Env(rng, D)
             done += 1  # monitored (snapshot + diff) whether or not the call raised
@@ -139,10 +148,26 @@ def functional(ctx, D, part):
         ctx.sample({"function": "core.grid_sample", "specs": "7 argument forms incl. padding=1.5 on float32/float64/int16/non-contiguous input"})
 
 
+def bool_flags(fn):
+    r"""(name, flipped value) for every keyword parameter of ``fn`` with a boolean default, except documented in-place switches."""
+    import inspect
+
+    try:
+        sig = inspect.signature(fn)
+    except (TypeError, ValueError):
+        return []
+    out = []
+    for n, prm in sig.parameters.items():
+        if isinstance(prm.default, bool) and n not in ("inplace", "in_place"):
+            out.append((n, not prm.default))
+    return out
+
+
 # ------------------------------------------------------------------------------------------------
-def observe(ctx, label, obj, call, allow_same=True, probe=None):
+def observe(ctx, label, obj, call, allow_same=True, probe=None, watch=None):
     r"""Call a non-underscore accessor on ``obj``; the receiver must be left exactly as it was."""
     snap = snapshot(obj)
+    snap_args = snapshot(watch) if watch is not None else None
     sig = state_signature(obj)
     before = probe(obj) if probe else None
     res = None
@@ -153,6 +178,9 @@ def observe(ctx, label, obj, call, allow_same=True, probe=None):
         exc = e
         ctx.exceptions[f"{label}:{type(e).__name__}"] += 1
     changes = diff(snap)
+    if snap_args is not None:
+        arg_changes = diff(snap_args)
+        ctx.true("accessor_arguments_not_mutated", not arg_changes, key=f"argument/{label}/mutated", accessor=label, changes=arg_changes)
     sig2 = state_signature(obj)
     # u, v (displacement / velocity) and p (predicted parameters) are documented caches recomputed by update()
     cache = (".u", ".v", ".p")
@@ -197,8 +225,20 @@ def accessors(ctx, k):
         "transform_vectors_world": lambda o: o.transform_vectors(vec.expand(3, D), Axes.WORLD, Axes.CUBE), "numpy": lambda o: o.numpy(), "deepcopy": lambda o: pycopy.deepcopy(o), "eq": lambda o: o == o.clone(),
         "same_domain_as": lambda o: o.same_domain_as(o.resize([m + 1 for m in n])), "origin_get": lambda o: o.origin(), "extent": lambda o: o.extent(), "cube_extent": lambda o: o.cube_extent(),
     }
+    watch = [vec, Rt]
     for name, call in calls.items():
-        observe(ctx, f"Grid.{name}", g, call)
+        observe(ctx, f"Grid.{name}", g, call, watch=watch)
+    # constructors and factory functions given caller-owned tensors
+    sz = torch.tensor([float(m) for m in n])
+    sp = vec.abs() + 0.5
+    ctor = {
+        "Grid(origin)": lambda o: Grid(size=sz, origin=vec, spacing=sp, direction=Rt), "Grid(center)": lambda o: Grid(size=sz, center=vec, spacing=sp, direction=Rt),
+        "Grid(shape)": lambda o: Grid(shape=tuple(n[::-1]), center=vec), "Cube(center)": lambda o: Cube(extent=sp, center=vec, direction=Rt), "Cube(origin)": lambda o: Cube(extent=sp, origin=vec, direction=Rt),
+        "Grid.from_numpy": lambda o: Grid.from_numpy(o.numpy()), "center_": lambda o: o.clone().center_(vec), "origin_": lambda o: o.clone().origin_(vec), "spacing_": lambda o: o.clone().spacing_(sp), "direction_": lambda o: o.clone().direction_(Rt),
+    }
+    ctx.bucket("accessors/constructors")
+    for name, call in ctor.items():
+        observe(ctx, f"Grid/{name}", g, call, watch=[vec, Rt, sz, sp])
     # results that are tensors of the grid must not be writable aliases used by later calls: modify copies
     c = g.clone()
     snap = snapshot(g)
@@ -236,7 +276,7 @@ def accessors(ctx, k):
         "deepcopy": lambda o: pycopy.deepcopy(o), "numpy": lambda o: o.numpy(),
     }
     for name, call in ccalls.items():
-        observe(ctx, f"Cube.{name}", cube, call)
+        observe(ctx, f"Cube.{name}", cube, call, watch=watch)
     cc = cube.clone()
     snap = snapshot(cube)
     with torch.no_grad():
@@ -276,7 +316,7 @@ def accessors(ctx, k):
                 "warp_image": lambda o: o.warp_image(Image(torch.ones((1,) + shape), g) if not batched else ImageBatch(torch.ones((2, 1) + shape), list(o.grids()))),
             })
         for name, call in icalls.items():
-            observe(ctx, f"{cls_name}.{name}", obj, call)
+            observe(ctx, f"{cls_name}.{name}", obj, call, watch=[kernel, other, tgt])
         # deep copy independence in both directions
         ctx.bucket("deepcopy")
         d = pycopy.deepcopy(obj)
